@@ -138,6 +138,12 @@ func NewVecOracle(metric string, dim int, q *models.Quantizer, persistedThreshol
 			o.Threshold = persistedThreshold
 		}
 	case models.QuantizerProduct:
+		if metric == models.DistanceCosine {
+			// a product-quantised cosine index is a euclidean index by construction
+			// (shard/vectorstore/product.go: "for normalised vectors euclidean distance
+			// = 2*cosine distance"), before and after training
+			o.Metric = models.DistanceEuclidean
+		}
 		if centroids != nil {
 			p := &PQParams{NumCentroids: q.Product.NumCentroids, NumSub: q.Product.NumSubVectors, SubLen: dim / q.Product.NumSubVectors, DistMetric: metric}
 			if metric == models.DistanceCosine {
